@@ -16,7 +16,7 @@ os.chdir(ROOT)
 ids = sys.argv[1:] or sorted(d for d in os.listdir("seeded") if os.path.isdir(os.path.join("seeded", d)))
 extra = [x for x in os.environ.get("EXTRA", "").split(",") if x]
 # checks that exercise the same code as the seeded property and are worth a cross run
-RELATED = {"C01": ["C16", "C28"], "C02": ["C03"], "C07": ["C01"], "C08": ["C14"], "C10": ["C12"], "C21": ["C22"], "C22": ["C21"], "C24": ["C17"], "C26": ["C27"], "C19": ["C18"]}
+RELATED = {"C01": ["C16", "C28"], "C02": ["C03"], "C07": ["C01"], "C08": ["C14"], "C10": ["C12"], "C21": ["C22"], "C22": ["C21"], "C24": ["C17"], "C26": ["C27"], "C19": ["C18"], "C23": ["C01"]}
 rows = []
 for sid in ids:
     patch = os.path.join("seeded", sid, "patch.diff")
